@@ -21,6 +21,12 @@ Space (every member is visited, nothing sampled)
             the leaf value must be the value the harness put between the marks.
             Histories of two calls on ONE parser object: a text whose span is never closed (LexicalError),
             then every valid text of <= 1 token; the second tree is judged like a fresh parser's.
+  kwskip  : sized space over the terminals a, PRAGMA, TAB with a tokenizer whose keywords promote a
+            COMMENT ("%pragma;") and a SPACE (one tab) token -- types of the default skip set -- to the
+            ordinary tokens PRAGMA / TAB: they are not skipped and must be among the leaves.
+  spanline: tokenizer whose span closer ">>" is also an ordinary token; texts in which one line text is
+            once the closing line of a multi-line span token and once a stand-alone line, in one text and in
+            two consecutive calls on one parser object (models.grammar.spanline_texts).
   diverge : directed family "three alternatives with one first symbol, non-monotone divergence"
             (models.grammar.family_diverge), all six orders.
   prefix  : directed family for factorization (models.grammar.family_prefix): common prefixes of length
@@ -82,7 +88,10 @@ REQUIRED_FEATURES = ["grammar:nullable", "grammar:ambiguous-table", "grammar:com
                      "span:multi-line-value-among-the-leaves",
                      "span:value-with-exotic-line-boundary-character",
                      "sequence:item-parsed-through-kept-suffix-symbol",
-                     "history:first-call-LexicalError", "history:failed-span-then-valid-text:tree"]
+                     "history:first-call-LexicalError", "history:failed-span-then-valid-text:tree",
+                     "config:keyword-on-skipped-token-type-among-the-leaves",
+                     "span:closing-line-text-repeated-as-plain-line", "history:two-calls:span-first",
+                     "history:two-calls:plain-first", "spanline:tree"]
 
 _SPACES = {
     # (kind, non-terminals, cfg key, max_alts, max_len, max_size, input length, shards)
@@ -90,13 +99,15 @@ _SPACES = {
               ("sized", "EA", "kw", 2, 2, 4, 3, 16), ("prefix", "EA", "ab", 0, 0, 0, 4, 48),
               ("split", "EA", "ab", 0, 0, 0, 4, 8), ("seq", "EWA", "wvxy", 0, 0, 0, 3, 24),
               ("blank", "EA", "blank", 2, 2, 4, 3, 16), ("diverge", "EA", "pabcdxy", 0, 0, 0, 3, 8),
-              ("span", "EA", "span", 0, 0, 0, 2, 6)],
+              ("span", "EA", "span", 0, 0, 0, 2, 6), ("kwskip", "EA", "kwskip", 2, 2, 3, 3, 8),
+              ("spanline", "EA", "span2", 0, 0, 0, 0, 1)],
     "thorough": [("sized", "EA", "ab", 3, 3, 6, 5, 64), ("sized", "EA", "ab", 3, 3, 7, 4, 200),
                  ("sized", "EAB", "a", 2, 3, 6, 5, 64), ("sized", "EAB", "ab", 2, 2, 5, 4, 48),
                  ("sized", "EA", "kw", 2, 2, 5, 3, 48), ("prefix", "EA", "ab", 0, 0, 0, 5, 64),
                  ("split", "EA", "ab", 0, 0, 0, 5, 16), ("seq", "EWA", "wvxy", 0, 0, 0, 5, 48),
                  ("blank", "EA", "blank", 2, 2, 5, 5, 48), ("diverge", "EA", "pabcdxy", 0, 0, 0, 4, 24),
-                 ("span", "EA", "span", 0, 0, 0, 3, 6)],
+                 ("span", "EA", "span", 0, 0, 0, 3, 6), ("kwskip", "EA", "kwskip", 2, 2, 4, 4, 16),
+                 ("spanline", "EA", "span2", 0, 0, 0, 0, 1)],
 }
 # the prefix family is enumerated completely in both tiers; the tiers differ in its input length only
 
@@ -126,6 +137,19 @@ def bounds(tier):
     out = []
     for kind, nts, key, ma, ml, ms, L, _ in _SPACES[tier]:
         cfg = _cfg(key)
+        if kind == "spanline":
+            out.append({"space": "same line text as closing line of a multi-line span token and as a stand-alone "
+                                 "line (closing characters are also an ordinary token); one text and two "
+                                 "consecutive calls on one parser", "histories": len(G.spanline_texts()),
+                        "grammar": G.show(G.SPANLINE_GRAMMAR)})
+            continue
+        if kind == "kwskip":
+            out.append({"space": "sized x keywords on skipped token types (COMMENT '%pragma;' -> PRAGMA, "
+                                 "SPACE tab -> TAB; default skip set)", "non_terminals": list(nts),
+                        "terminals": ["a", "PRAGMA", "TAB"], "max_alternatives": ma, "max_alt_len": ml,
+                        "max_total_size": ms, "grammars": G.count_sized(len(nts), 3, ma, ml, ms),
+                        "input_len_max": L, "inputs_per_mode": len(G.all_inputs(cfg, L))})
+            continue
         if kind == "span":
             out.append({"space": "span-token family: non-skipped multi-line token TEXT <<...>> (span_matchers)",
                         "grammars": len(G.family_span()), "token_values": len(G.span_bodies()),
@@ -282,6 +306,8 @@ def check_grammar(cfg, start, prods, inputs, acc, modes=(True, False), overrides
                     bad = G.validate_tree(root, pm, terms, root_symbol, expected, seqs)
                     shape = None
                     try:
+                        if cfg.key == "kwskip" and any(n in ("PRAGMA", "TAB") for n, _ in toks):
+                            feats.add("config:keyword-on-skipped-token-type-among-the-leaves")
                         if cfg.key == "span":
                             vals = "".join(v for n, v in toks if n == "TEXT")
                             if "\n" in vals:
@@ -382,6 +408,8 @@ def _grammars(tier, shard):
     cfg = _cfg(key)
     if kind == "sized":
         gen = G.enum_sized(tuple(nts), cfg.terms, ma, ml, ms, (k, K))
+    elif kind == "kwskip":
+        gen = G.enum_sized(tuple(nts), ("a", "PRAGMA", "TAB"), ma, ml, ms, (k, K))
     elif kind == "blank":
         # grammar terminals: the letter and SPACE (COMMENT only occurs in texts)
         gen = G.enum_sized(tuple(nts), ("a", "SPACE"), ma, ml, ms, (k, K))
@@ -399,7 +427,56 @@ def _grammars(tier, shard):
     return cfg, G.all_inputs(cfg, L), gen
 
 
+def _leaves(root):
+    out, stack = [], [root]
+    while stack:
+        n = stack.pop()
+        v = getattr(n, "value", None)
+        if isinstance(v, list):
+            stack.extend(reversed(v))
+        elif isinstance(v, str):
+            out.append((n.name, v))
+    return out
+
+
+def run_spanline(acc, only=None):
+    """Histories of models.grammar.spanline_texts on one parser object each (both modes)."""
+    cfg = G.span2_cfg()
+    prods = G.SPANLINE_GRAMMAR
+    pm = dict(prods)
+    histories = G.spanline_texts() if only is None else [(only[0], only[1])]
+    for smart in ((True, False) if only is None else (only[2],)):
+        for label, calls in histories:
+            res, p = H.build(cfg, "E", prods, smart)
+            acc.trans()
+            feats = {"space:spanline", "span:closing-line-text-repeated-as-plain-line",
+                     "history:" + label}
+            ok = True
+            for ci, (text, exp) in enumerate(calls):
+                exp = [tuple(t) for t in exp]
+                r, root = H.parse(p, cfg, (), raw_text=text) if res == "ok" else ("not-built", None)
+                acc.trans()
+                if r != "tree":
+                    feats.add("spanline:" + r)
+                    continue
+                bad = G.validate_tree(root, pm, set(cfg.terms), "E", tuple(exp))
+                if bad is not None:
+                    ok = False
+                    case = {"kind": "spanline", "smart": smart, "label": label,
+                            "calls": [[t, [list(x) for x in e]] for t, e in calls[:ci + 1]]}
+                    acc.violation("C01:" + bad[0] + ":line-text-seen-before-in-another-span-state", case,
+                                  f"call {ci + 1} of {[c[0] for c in calls]!r} on one parser "
+                                  f"(smart_factorization={smart}): leaves {_leaves(root)} are not the tokens "
+                                  f"{exp}", repr(_leaves(root)), repr(exp))
+                    break
+                feats.add("spanline:tree")
+            acc.case(nontrivial=True, features=sorted(feats), outcome="ok" if ok else "bad", traces=len(calls))
+
+
 def run_shard(shard, tier, seed, acc):
+    if _SPACES[tier][shard[0]][0] == "spanline":
+        run_spanline(acc)
+        return
     cfg, inputs, gen = _grammars(tier, tuple(shard))
     sp = _SPACES[tier][shard[0]]
     fam = "space:" + sp[0] + ":" + str(sp[2])
@@ -421,6 +498,9 @@ def run_shard(shard, tier, seed, acc):
 
 
 def replay(case, acc):
+    if case.get("kind") == "spanline":
+        run_spanline(acc, only=(case["label"], [(t, e) for t, e in case["calls"]], case["smart"]))
+        return
     cfg, start, prods = G.from_case(case)
     inputs = [tuple(tuple(t) for t in case["input"])]
     ps = case.get("parse_start")
